@@ -593,51 +593,44 @@ and records for every item of the world whether its attribute is modified — on
 (`modified`; rests on `get_affector_specs` / `get_modifications` and the affector storages) and once after every
 item was read before the effect was started / the target was set (`modifiedInc`; additionally rests on what
 `get_local_affectee_items` / `get_projected_affectee_items` invalidate).  The recorded configuration, item types
-and modifier are read back from the live objects.  A case carries them in the form the specification's selection
+and modifier are read back from the live objects; `valid` is the verdict of the library's own modifier validation
+(`DogmaModifier._valid`, the test the modifier builder applies before it emits a modifier — property C19), obtained
+by calling it on the real modifier object.  A case carries all this in the form the specification's selection
 functions take; `specLocal c = affectsLocal c.cfg c.a c.m c.x c.tx` and
 `specProjected c = affectsProjected c.cfg c.a c.m c.t c.x c.tx` by definition. -/
 
 section affectsTable
 open Eos.AffectsSpec
-open EosGen.AffectsTable (localCases projectedCases localCaseCount localModifiedCount projectedCaseCount
-  projectedModifiedCount localBlocks projectedBlocks blockL01 blockP04)
-
-/- The statement at full strength,
-
-     theorem affects_table_matches_spec : ∀ c ∈ localCases, specLocal c = c.modified
-     theorem affects_table_matches_spec_projected : ∀ c ∈ projectedCases, specProjected c = c.modified
-
-   does NOT hold on the pinned tree (`affects_table_group_none_disagrees` below is the machine-checked
-   refutation): finding AT1, a `domain_group` modifier WITHOUT group argument modifies the items of the domain
-   whose type has no group (`AffectionRegister.get_affector_specs` lacks the `group_id is not None` guard of
-   `__get_affectee_storages`), the specification says it selects nothing.  The proved statements exclude
-   exactly those rows (`groupNoneRow c.m`: filter 3, no argument), and `affects_table_group_none_observed` pins
-   what the code does on them, so a change of the code there is detected too.  The incremental observation
-   agrees with the specification on every row, these included (the code never invalidates the items in question:
-   the two observations of the real code differ there, which is the defect). -/
+open EosGen.AffectsTable (localCases projectedCases localCaseCount localModifiedCount localValidCount
+  projectedCaseCount projectedModifiedCount projectedValidCount localBlocks projectedBlocks blockL01 blockP04)
 
 /-- "whose affectee filter selects that item", local modifiers: on every case of the regenerated table whose
-modifier is not a `domain_group` modifier without group argument, the specification's `affectsLocal`,
-evaluated on the recorded configuration, is what the real code did in the world built from scratch. -/
-theorem affects_table_matches_spec_partial :
-    ∀ c ∈ localCases, groupNoneRow c.m = false → specLocal c = c.modified := by
-  intro c hc hg
+modifier the library's validation accepts, the specification's `affectsLocal`, evaluated on the recorded
+configuration, is what the real code did in the world built from scratch. -/
+theorem affects_table_matches_spec :
+    ∀ c ∈ localCases, c.valid = true → specLocal c = c.modified := by
+  intro c hc hv
   have h := local_cases_ok c hc
-  simp only [localCaseOk, Bool.and_eq_true, agrees_iff, hg, Bool.false_eq_true, if_false] at h
+  simp only [localCaseOk, Bool.and_eq_true, agrees_iff, hv, Bool.not_true, Bool.or_false,
+    Bool.not_eq_true'] at h
+  simp only [h.1.2, Bool.false_eq_true, if_false] at h
   exact h.2.2.symm
 
 /-- The projected twin (effect category target, modifier domain target, applied to the projector's target):
-`affectsProjected` is what the real code did in the world built from scratch. -/
-theorem affects_table_matches_spec_projected_partial :
-    ∀ c ∈ projectedCases, groupNoneRow c.m = false → specProjected c = c.modified := by
-  intro c hc hg
+on every case with a valid modifier `affectsProjected` is what the real code did in the world built from
+scratch. -/
+theorem affects_table_matches_spec_projected :
+    ∀ c ∈ projectedCases, c.valid = true → specProjected c = c.modified := by
+  intro c hc hv
   have h := proj_cases_ok c hc
-  simp only [projCaseOk, Bool.and_eq_true, agrees_iff, hg, Bool.false_eq_true, if_false] at h
+  simp only [projCaseOk, Bool.and_eq_true, agrees_iff, hv, Bool.not_true, Bool.or_false,
+    Bool.not_eq_true'] at h
+  simp only [h.1.2, Bool.false_eq_true, if_false] at h
   exact h.2.2.symm
 
 /-- The incremental observation (every item read first, then the effect started / the target set) is the
-specification's answer on EVERY case of either table: the items the code invalidates and then recalculates
-with the modification are exactly the selected ones. -/
+specification's answer on EVERY case of either table, valid modifier or not: the items the code invalidates and
+then recalculates with the modification are exactly the selected ones. -/
 theorem affects_table_incremental_matches_spec :
     (∀ c ∈ localCases, specLocal c = c.modifiedInc) ∧ (∀ c ∈ projectedCases, specProjected c = c.modifiedInc) := by
   refine ⟨fun c hc => ?_, fun c hc => ?_⟩
@@ -648,24 +641,44 @@ theorem affects_table_incremental_matches_spec :
     simp only [projCaseOk, Bool.and_eq_true, agrees_iff] at h
     exact h.2.1.symm
 
-/-- Finding AT1, what the real code does on the excluded rows in a world built from scratch: a `domain_group`
-modifier without group argument selects exactly the group-less items of the (resolved) domain — of the
-affector's fit for a local modifier, aboard the targeted ship for a projected one. -/
-theorem affects_table_group_none_observed :
-    (∀ c ∈ localCases, groupNoneRow c.m = true → c.modified = observedGroupNoneLocal c) ∧
-    (∀ c ∈ projectedCases, groupNoneRow c.m = true → c.modified = observedGroupNoneProj c) := by
+/-- Outside the domain — modifiers the library's own validation rejects (a group / skill filter without
+argument, an en-masse filter with domain `other`, `owner_skillrq` with a domain other than `character`; the
+modifier builder never emits them): in a world built from scratch the real code still does what the
+specification says, except for a `domain_group` modifier without group argument, which selects exactly the
+group-less items of the (resolved) domain — of the affector's fit for a local modifier, aboard the targeted ship
+for a projected one.  (Pinned so that a change of the code there is noticed too; not a property clause.) -/
+theorem affects_table_invalid_rows_observed :
+    (∀ c ∈ localCases, c.valid = false →
+      c.modified = if groupNoneRow c.m then observedGroupNoneLocal c else specLocal c) ∧
+    (∀ c ∈ projectedCases, c.valid = false →
+      c.modified = if groupNoneRow c.m then observedGroupNoneProj c else specProjected c) := by
+  refine ⟨fun c hc _ => ?_, fun c hc _ => ?_⟩
+  · have h := local_cases_ok c hc
+    simp only [localCaseOk, Bool.and_eq_true, agrees_iff] at h
+    have h2 := h.2.2
+    split at h2 <;> simp_all
+  · have h := proj_cases_ok c hc
+    simp only [projCaseOk, Bool.and_eq_true, agrees_iff] at h
+    have h2 := h.2.2
+    split at h2 <;> simp_all
+
+/-- Every `domain_group` modifier without group argument in the table is one the validation rejects. -/
+theorem affects_table_group_none_invalid :
+    (∀ c ∈ localCases, groupNoneRow c.m = true → c.valid = false) ∧
+    (∀ c ∈ projectedCases, groupNoneRow c.m = true → c.valid = false) := by
   refine ⟨fun c hc hg => ?_, fun c hc hg => ?_⟩
   · have h := local_cases_ok c hc
-    simp only [localCaseOk, Bool.and_eq_true, agrees_iff, hg, if_true] at h
-    exact h.2.2
+    simp only [localCaseOk, Bool.and_eq_true, hg, Bool.not_true, Bool.false_or, Bool.not_eq_true'] at h
+    exact h.1.2
   · have h := proj_cases_ok c hc
-    simp only [projCaseOk, Bool.and_eq_true, agrees_iff, hg, if_true] at h
-    exact h.2.2
+    simp only [projCaseOk, Bool.and_eq_true, hg, Bool.not_true, Bool.false_or, Bool.not_eq_true'] at h
+    exact h.1.2
 
-/-- Finding AT1 is a genuine disagreement between the specification and the pinned tree: the full-strength
-statement fails on a recorded case of either table. -/
-theorem affects_table_group_none_disagrees :
-    (∃ c ∈ localCases, specLocal c ≠ c.modified) ∧ (∃ c ∈ projectedCases, specProjected c ≠ c.modified) := by
+/-- The validity hypothesis of `affects_table_matches_spec` cannot be dropped: outside the domain there are
+recorded cases (of either table) where the real code leaves the specification. -/
+theorem affects_table_invalid_rows_disagree :
+    (∃ c ∈ localCases, c.valid = false ∧ specLocal c ≠ c.modified) ∧
+    (∃ c ∈ projectedCases, c.valid = false ∧ specProjected c ≠ c.modified) := by
   constructor
   · obtain ⟨c, hc, h⟩ := List.any_eq_true.1 local_disagreement
     exact ⟨c, mem_localCases (by simp [localBlocks]) hc, by simpa using h⟩
@@ -678,18 +691,21 @@ theorem affects_table_types_aligned :
   refine ⟨fun c hc => ?_, fun c hc => ?_⟩
   · have h := local_cases_ok c hc
     simp only [localCaseOk, Bool.and_eq_true, beq_iff_eq] at h
-    exact h.1
+    exact h.1.1
   · have h := proj_cases_ok c hc
     simp only [projCaseOk, Bool.and_eq_true, beq_iff_eq] at h
-    exact h.1
+    exact h.1.1
 
-/-- Nothing was lost between the generator and the theorems: the tables have exactly as many cases, and as
-many "modified" cases (so the statements above are not vacuous), as the generator counted observations. -/
+/-- Nothing was lost between the generator and the theorems: the tables have exactly as many cases, as many
+"modified" cases and as many cases with a valid modifier (so the statements above are not vacuous) as the
+generator counted observations. -/
 theorem affects_table_complete :
     localCases.length = localCaseCount ∧ localCases.countP (·.modified) = localModifiedCount ∧
+    localCases.countP (·.valid) = localValidCount ∧
     projectedCases.length = projectedCaseCount ∧
-    projectedCases.countP (·.modified) = projectedModifiedCount :=
-  ⟨local_counts.1, local_counts.2, proj_counts.1, proj_counts.2⟩
+    projectedCases.countP (·.modified) = projectedModifiedCount ∧
+    projectedCases.countP (·.valid) = projectedValidCount :=
+  ⟨local_counts.1, local_counts.2.1, local_counts.2.2, proj_counts.1, proj_counts.2.1, proj_counts.2.2⟩
 
 end affectsTable
 
